@@ -12,10 +12,28 @@
 #include <qremote/qremote.h>
 #include <qremote/starttlsr.h>
 #include <qdns_dane.h>
+#include <tls.h>
 
 #include <errno.h>
 #include <syslog.h>
 #include <unistd.h>
+
+/**
+ * @brief close the connection without talking to the remote server anymore
+ *
+ * A TLS session ends together with the connection it was negotiated on,
+ * otherwise the next host would be talked to through it.
+ */
+static void
+drop_connection(void)
+{
+	if (ssl != NULL) {
+		ssl_free(ssl);
+		ssl = NULL;
+	}
+	close(socketd);
+	socketd = -1;
+}
 
 /**
  * @brief send QUIT to the remote server if there still is a connection
@@ -28,8 +46,7 @@ quitmsg_if_net(const int error)
 	case -EPIPE:
 	case -ECONNRESET:
 	case -ETIMEDOUT:
-		close(socketd);
-		socketd = -1;
+		drop_connection();
 		break;
 	default:
 		quitmsg();
@@ -42,8 +59,7 @@ connection_died(void)
 {
 	const char *logmsg[] = { "connection to ", rhost, " died", NULL };
 
-	close(socketd);
-	socketd = -1;
+	drop_connection();
 	log_writen(LOG_WARNING, logmsg);
 }
 
